@@ -177,13 +177,13 @@ func (e ProtoEngine) Shrink(ci any) []any {
 }
 
 var paceTampers = []string{"wrong-password", "nonce-flip", "map-key-other-point", "map-key-reflect", "map-key-invalid", "map-key-infinity", "map-key-omit",
-	"ka-key-other-point", "ka-key-reflect", "ka-key-invalid", "ka-key-omit", "token-flip", "token-omit", "token-truncated", "cam-data-flip", "cam-data-omit", "cam-data-reblock"}
+	"ka-key-other-point", "ka-key-reflect", "ka-reflect-with-token", "ka-key-invalid", "ka-key-omit", "token-flip", "token-omit", "token-truncated", "cam-data-flip", "cam-data-omit", "cam-data-reblock"}
 
 var bacTampers = []string{"bitflip", "other-mrz-keys", "replay-other-run", "wrong-rnd-ifd-echo", "wrong-rnd-ic-echo", "swapped-echoes", "short-39", "long-41", "zero", "status-6300", "wrong-password"}
 
 var caImpostors = []string{"own-key", "no-switch", "plain-9000", "replay-transcript", "own-key-no-switch", "empty-mac-probe", "short-mac-probe"}
 
-var aaTampers = []string{"digest-tail-wrong", "bitflip", "other-challenge", "other-key", "truncate", "append", "zero-r", "zero-s", "r-eq-n", "s-plus-n", "neg-s-malleable", "digest-m1-only", "unknown-trailer", "wrong-hash-trailer", "random", "empty", "plain-as-der", "der-trailing", "short-f"}
+var aaTampers = []string{"digest-tail-wrong", "bitflip", "other-challenge", "other-key", "truncate", "append", "zero-r", "zero-s", "r-eq-n", "s-plus-n", "neg-s-malleable", "digest-m1-only", "unknown-trailer", "wrong-hash-trailer", "random", "empty", "plain-as-der", "der-trailing", "short-f", "first-attempt-error"}
 
 func (e ProtoEngine) Gen(prop, tier string, seed uint64, yield func(c any) bool) {
 	rng := core.NewRng(core.SubSeed(seed, "proto", e.P, tier))
@@ -213,6 +213,10 @@ func (e ProtoEngine) Gen(prop, tier string, seed uint64, yield func(c any) bool)
 						s.Password = core.Pick(rng, []string{"mrz", "mrzi", "dg1", "can"})
 						s.Layout = core.Pick(rng, []string{"TD1", "TD2", "TD3"})
 						s.PaceJunk = rng.Intn(4)
+						if cam {
+							s.CardSecExtraKeys = core.Pick(rng, []int{0, 1, 2})
+							s.CardSecVariant = core.Pick(rng, []int{0, 0, 1, 3})
+						}
 						if rng.Chance(1, 3) {
 							s.PACE = append(s.PACE, world.PaceSpec{Suite: chip.TDES, ParamID: core.Pick(rng, chip.AllParamIDs)})
 							s.PACE = dedupPace(s.PACE)
@@ -322,11 +326,11 @@ func (e ProtoEngine) Gen(prop, tier string, seed uint64, yield func(c any) bool)
 							ca.Suites = []string{suite}
 						case 2:
 							ca.Suites = []string{suite}
-							id := int64(rng.Range(1, 200))
+							id := genKeyID(rng)
 							ca.KeyID = &id
 						case 3:
 							ca.Suites = []string{suite}
-							id := int64(rng.Range(1, 200))
+							id := genKeyID(rng)
 							ca.KeyID = &id
 							ca.TwoKeys = true
 						case 4: // two suites advertised: the strongest is chosen
@@ -369,7 +373,7 @@ func (e ProtoEngine) Gen(prop, tier string, seed uint64, yield func(c any) bool)
 			reps = 80
 		}
 		for r := 0; r < reps; r++ {
-			for _, bits := range []int{1024, 1280, 1536, 2048, 3072, 4096} {
+			for _, bits := range []int{1024, 1280, 1536, 2048, 3072, 4096, 1027, 1030, 2045, 2047} {
 				for _, h := range pki.Hashes {
 					for _, m1 := range []string{"random", "zero", "ff", "leadzero"} {
 						if r == 0 && m1 != "random" && h != "SHA256" {
@@ -442,14 +446,17 @@ func wrongPassword(w *world.World) *password.Password {
 		return password.NewPasswordCan(other)
 	}
 	h := w.Holder
-	d := []byte(h.DOB)
+	d := []byte(h.DOE) // the date of expiry is always numeric (the date of birth may hold fillers)
 	if d[5] == '9' {
 		d[5] = '0'
 	} else {
 		d[5]++
 	}
-	h.DOB = string(d)
-	p, _ := password.NewPasswordMrzi(h.DocNo, h.DOB, h.DOE)
+	h.DOE = string(d)
+	p, err := password.NewPasswordMrzi(h.DocNo, h.DOB, h.DOE)
+	if err != nil || p == nil {
+		panic("harness: wrong-password construction failed: " + fmt.Sprint(err))
+	}
 	return p
 }
 
@@ -482,7 +489,7 @@ func runPace(c ProtoCase, out *core.Outcome) {
 		}
 	}
 	step := 0 // GA steps seen (chip messages 1..4)
-	var termMapKey, termKaKey []byte
+	var termMapKey, termKaKey, termToken []byte
 	if c.Mode == "wrong-password" {
 		pass = wrongPassword(w)
 	}
@@ -500,6 +507,9 @@ func runPace(c ProtoCase, out *core.Outcome) {
 				}
 				if t.Tag == 0x83 {
 					termKaKey = bytes.Clone(t.Val)
+				}
+				if t.Tag == 0x85 {
+					termToken = bytes.Clone(t.Val)
 				}
 			}
 		}
@@ -532,8 +542,13 @@ func runPace(c ProtoCase, out *core.Outcome) {
 			return edit(0x82, nil, true)
 		case step == 3 && c.Mode == "ka-key-other-point":
 			return edit(0x84, func(v []byte) []byte { return otherPointOn(sel.ParamID, v, int64(2+c.A%1000)) }, false)
-		case step == 3 && c.Mode == "ka-key-reflect":
+		case step == 3 && (c.Mode == "ka-key-reflect" || c.Mode == "ka-reflect-with-token"):
 			return edit(0x84, func(v []byte) []byte { return termKaKey }, false)
+		case step == 4 && c.Mode == "ka-reflect-with-token":
+			// a counterpart without the password: it echoed the terminal's agreement key and now echoes the terminal's
+			// token (T_IFD = MAC(K, PK_IC) = MAC(K, PK_IFD) = the token the terminal expects from the chip)
+			tampered = true
+			return append(chip.EncTLV(0x7C, chip.EncTLV(0x86, termToken)), 0x90, 0x00)
 		case step == 3 && c.Mode == "ka-key-invalid":
 			return edit(0x84, invalidPoint, false)
 		case step == 3 && c.Mode == "ka-key-omit":
@@ -1022,15 +1037,15 @@ func runAA(c ProtoCase, out *core.Outcome) {
 		qx, qy = key.Curve.ScalarBaseMult(key.ECD.Bytes())
 	}
 	mrng := core.NewRng(core.SubSeed(c.Spec.Seed, "aa-adversary"))
+	if c.Mode == "first-attempt-error" {
+		d.chip.AAFailFirst = 1 + c.B%2
+		d.chip.AAFailSW = []uint16{0x6F00, 0x6A88, 0x6700, 0x6985, 0x6300}[c.A%5]
+	}
 	d.chip.AAMutate = func(sig, rnd []byte) []byte {
 		o := bytes.Clone(sig)
 		defer func() { delivered = bytes.Clone(o) }()
 		switch c.Mode {
 		case "genuine":
-			if oddRSA {
-				// no interoperable reference for bit lengths not divisible by 8: completeness not asserted
-				return o
-			}
 		case "bitflip":
 			o[c.A%len(o)] ^= byte(1 << uint(c.B%8))
 		case "other-challenge":
@@ -1164,8 +1179,9 @@ func runAA(c ProtoCase, out *core.Outcome) {
 	}
 	if c.Mode == "genuine" {
 		if oddRSA {
-			out.Probe("rsa_modulus_not_multiple_of_8_completeness_not_asserted")
-		} else if !success {
+			out.Probe("rsa_modulus_not_multiple_of_8")
+		}
+		if !success {
 			out.Violate("C07", "genuine-rejected", cell, "genuine AA response rejected (reference verifier says valid=%v): %v", valid, aerr)
 		}
 	} else {
@@ -1236,7 +1252,8 @@ func forgeRSA(k *chip.AAKey, rnd []byte, mode string, rng *core.Rng) []byte {
 	hash := k.Hash
 	tr := map[string][]byte{"SHA1": {0xBC}, "SHA224": {0x38, 0xCC}, "SHA256": {0x34, 0xCC}, "SHA384": {0x36, 0xCC}, "SHA512": {0x35, 0xCC}}[hash]
 	hl := len(chip.Hash(hash, nil))
-	m1 := rng.Bytes(klen - 1 - hl - len(tr))
+	flen := k.N.BitLen() / 8 // see chip.AASignRSA
+	m1 := rng.Bytes(flen - 1 - hl - len(tr))
 	var dg []byte
 	switch mode {
 	case "digest-m1-only":
@@ -1268,10 +1285,10 @@ func forgeRSA(k *chip.AAKey, rnd []byte, mode string, rng *core.Rng) []byte {
 		tr = alt
 	}
 	f := append(append(append([]byte{0x6A}, m1...), dg...), tr...)
-	for len(f) < klen {
+	for len(f) < flen {
 		f = append(f[:1], append([]byte{0xBB}, f[1:]...)...)
 	}
-	s := new(big.Int).Exp(new(big.Int).SetBytes(f[:klen]), k.D, k.N)
+	s := new(big.Int).Exp(new(big.Int).SetBytes(f[:flen]), k.D, k.N)
 	o := make([]byte, klen)
 	s.FillBytes(o)
 	return o
@@ -1311,4 +1328,19 @@ func CraftRSAF(k *chip.AAKey, a, b int) []byte {
 	o := make([]byte, klen)
 	sgn.FillBytes(o)
 	return o
+}
+
+// genKeyID: key identifiers of every width (one octet, 128..255 where the INTEGER needs a sign octet, two and three octets).
+func genKeyID(rng *core.Rng) int64 {
+	switch rng.Intn(5) {
+	case 0:
+		return int64(rng.Range(0, 127))
+	case 1:
+		return int64(rng.Range(128, 255))
+	case 2:
+		return int64(rng.Range(256, 65535))
+	case 3:
+		return int64(core.Pick(rng, []int{256, 257, 300, 32768, 65536, 70000}))
+	}
+	return int64(rng.Range(1, 200))
 }
